@@ -245,9 +245,26 @@ func (p *Poly) Pts() []Pt {
 	return out
 }
 
-// FlattenSub approximates a sub-path by a polyline whose deviation from the curve is below eps
-// (adaptive subdivision in the parameter with a mid/quarter-point flatness test, at least 8 and at
-// most 2^16 pieces per curved segment).
+// secondDerivBound bounds |P”(t)| over the segment (parameter t in [0,1]).
+func (s *Seg) secondDerivBound() float64 {
+	switch s.Kind {
+	case Quad:
+		return 2 * s.P0.Sub(s.C1.Mul(2)).Add(s.P3).Len()
+	case Cube:
+		a := s.P0.Sub(s.C1.Mul(2)).Add(s.C2).Len()
+		b := s.C1.Sub(s.C2.Mul(2)).Add(s.P3).Len()
+		return 6 * math.Max(a, b)
+	case Arc:
+		s.arcCenter()
+		return math.Max(s.rx, s.ry) * s.dth * s.dth
+	}
+	return 0
+}
+
+// FlattenSub approximates a sub-path by a polyline whose deviation from the curve is provably below
+// eps: every curved segment is cut into n equal parameter steps with n^2 >= max|P”|/(8 eps) (the
+// classical chord error bound h^2/8*max|P”|), at least 8 and at most 2^17 pieces. No adaptive
+// flatness test is used: sampled tests miss the tips of hairpin curves.
 func FlattenSub(s *Sub, eps float64) Poly {
 	poly := Poly{Closed: s.Closed}
 	poly.V = append(poly.V, Vertex{s.Start, 0, 0})
@@ -257,27 +274,20 @@ func FlattenSub(s *Sub, eps float64) Poly {
 			poly.V = append(poly.V, Vertex{sg.P3, i, 1})
 			continue
 		}
-		var rec func(t0, t1 float64, p0, p1 Pt, depth int)
-		rec = func(t0, t1 float64, p0, p1 Pt, depth int) {
-			tm := (t0 + t1) / 2
-			pm := sg.At(tm)
-			if depth >= 3 {
-				flat := depth >= 16
-				if !flat {
-					d1 := DistPtSeg(pm, p0, p1)
-					d2 := DistPtSeg(sg.At(t0+(t1-t0)*0.25), p0, p1)
-					d3 := DistPtSeg(sg.At(t0+(t1-t0)*0.75), p0, p1)
-					flat = d1 < eps && d2 < eps && d3 < eps
+		n := 8
+		if b := sg.secondDerivBound(); b > 0 && eps > 0 {
+			if m := math.Ceil(math.Sqrt(b / (8 * eps))); m > float64(n) {
+				if m > 1<<17 {
+					m = 1 << 17
 				}
-				if flat {
-					poly.V = append(poly.V, Vertex{p1, i, t1})
-					return
-				}
+				n = int(m)
 			}
-			rec(t0, tm, p0, pm, depth+1)
-			rec(tm, t1, pm, p1, depth+1)
 		}
-		rec(0, 1, sg.P0, sg.P3, 0)
+		for k := 1; k < n; k++ {
+			t := float64(k) / float64(n)
+			poly.V = append(poly.V, Vertex{sg.At(t), i, t})
+		}
+		poly.V = append(poly.V, Vertex{sg.P3, i, 1})
 	}
 	return poly
 }
@@ -562,4 +572,164 @@ func (t *ArcTable) Project(p Pt, sLo, sHi float64) (s, dist float64) {
 		}
 	}
 	return
+}
+
+// Nearest returns the parameter in [t0,t1] of the point of the segment nearest to q and its
+// distance. Lines are solved in closed form; curves by 64 samples followed by golden-section
+// refinement of the three best local minima (accuracy about 1e-12 of the segment size).
+func (s *Seg) Nearest(q Pt, t0, t1 float64) (float64, float64) {
+	if t1 < t0 {
+		t0, t1 = t1, t0
+	}
+	if s.Kind == Line {
+		ab := s.P3.Sub(s.P0)
+		l2 := ab.Dot(ab)
+		t := 0.0
+		if l2 > 0 {
+			t = q.Sub(s.P0).Dot(ab) / l2
+		}
+		t = math.Max(t0, math.Min(t1, t))
+		return t, q.Dist(s.At(t))
+	}
+	const N = 64
+	var d [N + 1]float64
+	for i := 0; i <= N; i++ {
+		d[i] = q.Dist(s.At(t0 + (t1-t0)*float64(i)/N))
+	}
+	type cand struct {
+		i int
+		d float64
+	}
+	var cs []cand
+	for i := 0; i <= N; i++ {
+		if (i == 0 || d[i] <= d[i-1]) && (i == N || d[i] <= d[i+1]) {
+			cs = append(cs, cand{i, d[i]})
+		}
+	}
+	// keep the three smallest
+	for a := 0; a < len(cs); a++ {
+		for b := a + 1; b < len(cs); b++ {
+			if cs[b].d < cs[a].d {
+				cs[a], cs[b] = cs[b], cs[a]
+			}
+		}
+	}
+	if len(cs) > 3 {
+		cs = cs[:3]
+	}
+	bestT, bestD := t0, math.Inf(1)
+	const phi = 0.6180339887498949
+	for _, c := range cs {
+		lo := t0 + (t1-t0)*float64(maxInt(c.i-1, 0))/N
+		hi := t0 + (t1-t0)*float64(minInt(c.i+1, N))/N
+		a, b := lo, hi
+		x1, x2 := b-phi*(b-a), a+phi*(b-a)
+		f1, f2 := q.Dist(s.At(x1)), q.Dist(s.At(x2))
+		for it := 0; it < 60 && b-a > 1e-15; it++ {
+			if f1 < f2 {
+				b, x2, f2 = x2, x1, f1
+				x1 = b - phi*(b-a)
+				f1 = q.Dist(s.At(x1))
+			} else {
+				a, x1, f1 = x1, x2, f2
+				x2 = a + phi*(b-a)
+				f2 = q.Dist(s.At(x2))
+			}
+		}
+		t := (a + b) / 2
+		for _, tt := range []float64{t, lo, hi} {
+			if dd := q.Dist(s.At(tt)); dd < bestD {
+				bestT, bestD = tt, dd
+			}
+		}
+	}
+	return bestT, bestD
+}
+
+func maxInt(a, b int) int {
+	if a > b {
+		return a
+	}
+	return b
+}
+func minInt(a, b int) int {
+	if a < b {
+		return a
+	}
+	return b
+}
+
+// Pos identifies a point of a sub-path by segment index and parameter.
+type Pos struct {
+	Seg int
+	T   float64
+}
+
+func (a Pos) Less(b Pos) bool { return a.Seg < b.Seg || (a.Seg == b.Seg && a.T < b.T) }
+
+// NearestOnSub returns the point of the sub-path at or after position from that is nearest to q.
+func NearestOnSub(sub *Sub, q Pt, from Pos) (Pos, float64) {
+	best, bestD := from, math.Inf(1)
+	if len(sub.Segs) == 0 {
+		return Pos{}, q.Dist(sub.Start)
+	}
+	for i := from.Seg; i < len(sub.Segs); i++ {
+		t0 := 0.0
+		if i == from.Seg {
+			t0 = from.T
+		}
+		t, d := sub.Segs[i].Nearest(q, t0, 1)
+		if d < bestD {
+			best, bestD = Pos{i, t}, d
+		}
+	}
+	return best, bestD
+}
+
+// DistToSubs is the distance from q to the nearest point of any sub-path (exact curves).
+func DistToSubs(q Pt, subs []Sub) float64 {
+	best := math.Inf(1)
+	for si := range subs {
+		if len(subs[si].Segs) == 0 {
+			best = math.Min(best, q.Dist(subs[si].Start))
+		}
+		for i := range subs[si].Segs {
+			if _, d := subs[si].Segs[i].Nearest(q, 0, 1); d < best {
+				best = d
+			}
+		}
+	}
+	return best
+}
+
+// SampleSubs returns n+1 points per segment (parameter-uniform) of all sub-paths.
+func SampleSubs(subs []Sub, n int) []Pt {
+	var out []Pt
+	for si := range subs {
+		out = append(out, subs[si].Start)
+		for i := range subs[si].Segs {
+			sg := &subs[si].Segs[i]
+			m := n
+			if sg.Kind == Line {
+				m = 2
+			}
+			for k := 1; k <= m; k++ {
+				out = append(out, sg.At(float64(k)/float64(m)))
+			}
+		}
+	}
+	return out
+}
+
+// HausdorffSubs is the directed Hausdorff distance from samples of a (n per segment) to the exact
+// curves of b.
+func HausdorffSubs(a, b []Sub, n int) (float64, Pt) {
+	worst := 0.0
+	var at Pt
+	for _, q := range SampleSubs(a, n) {
+		if d := DistToSubs(q, b); d > worst {
+			worst, at = d, q
+		}
+	}
+	return worst, at
 }
